@@ -34,6 +34,7 @@ def parseStopData? (s : String) : Option (Option Item) :=
 /-- `kind/id` of a logged event; the arrival marker `put` is an input, not an observation -/
 def evStr : Ev → Option String
   | .put _ => none
+  | .late _ => none
   | .timeout => none
   | .out n => some s!"out/{n}"
   | .start j => some s!"start/{j.data.id}"
@@ -72,6 +73,13 @@ def renderInstants (l : List (Nat × Ev)) : String :=
   let r := go l.length l 0 []
   if r.isEmpty then "-" else ",".intercalate r
 
+/-- the instant at which the clean-up was over: the stop, or the last observable event after it
+    (late puts move the model's clock but are not part of the block's work) -/
+def endTime (st : State) : Nat :=
+  match st.log.find? (fun e => (evStr e.2).isSome) with
+  | some e => max e.1 (st.stopAt.getD 0)
+  | none => st.stopAt.getD st.now
+
 def handle (s : DState) : List String → DState × String
   | ["reset", m, g, sd, to] =>
     match parseMode? m, g.toNat?, parseStopData? sd, to.toNat? with
@@ -81,16 +89,16 @@ def handle (s : DState) : List String → DState × String
     match t.toNat?, parseBool? pre, parseBool? batch, parseItem? id dur fail with
     | some t, some pre, some batch, some x =>
       let st := step s.cfg s.st (.put t pre batch x)
-      ({ s with st := st }, if st.nacc == s.st.nacc then "rejected" else "ok")
+      ({ s with st := st }, if st.nacc == s.st.nacc then "late" else "ok")
     | _, _, _, _ => (s, "bad-op")
-  | ["stop", t, pre] =>
-    match t.toNat?, parseBool? pre with
-    | some t, some pre => ({ s with st := step s.cfg s.st (.stop t pre) }, "ok")
-    | _, _ => (s, "bad-op")
+  | ["stop", t, pre, batch] =>
+    match t.toNat?, parseBool? pre, parseBool? batch with
+    | some t, some pre, some batch => ({ s with st := step s.cfg s.st (.stop t pre batch) }, "ok")
+    | _, _, _ => (s, "bad-op")
   | ["finish"] =>
     let st := step s.cfg s.st .finish
     ({ s with st := st },
-      s!"idle={st.runs.isEmpty && st.queue.isEmpty && st.sdPending.isNone} out={st.output} t={st.now}")
+      s!"idle={st.runs.isEmpty && st.queue.isEmpty && st.sdPending.isNone} out={st.output} t={endTime st}")
   | ["log"] =>
     (s, if s.cfg.mode == .start then renderInstants (chrono s.st) else renderOrdered (chrono s.st))
   | _ => (s, "bad-op")
